@@ -53,7 +53,37 @@ fn gen(seed: u64, idx: u64, _tier: Tier) -> Plan {
     }
     if scenario == "c20.failing_startup" {
         // configurations that make start-up fail in different ways, with the seed present
-        match rng.below(16) {
+        match rng.below(19) {
+            16 | 17 | 18 => {
+                // a hand-written file: keys in any order, and one string-valued setting given a
+                // value YAML does not read as a string (blank, a number, a float, a boolean, a list)
+                let mut lines = vec![format!("port: {}", s.port), format!("seed: {}", s.seed_hex), "batch_size: 8".to_string()];
+                let odd = *rng.pick(&["", "0", "127.1", "true", "[a, b]", "~"]);
+                let key = *rng.pick(&["interface", "interface", "client_stats", "kms_protection", "persistence_directory"]);
+                if key != "interface" {
+                    lines.push("interface: 127.0.0.1".to_string());
+                }
+                lines.push(format!("{}: {}", key, odd));
+                // shuffle, then make sure the odd line follows the seed in half of the cases
+                for i in (1..lines.len()).rev() {
+                    let j = rng.below(i as u64 + 1) as usize;
+                    lines.swap(i, j);
+                }
+                if rng.chance(1, 2) {
+                    let si = lines.iter().position(|l| l.starts_with("seed:")).unwrap();
+                    let oi = lines.iter().position(|l| l.starts_with(&format!("{}:", key))).unwrap();
+                    if oi < si {
+                        lines.swap(oi, si);
+                    }
+                    // directly behind the seed
+                    let oi = lines.iter().position(|l| l.starts_with(&format!("{}:", key))).unwrap();
+                    let l = lines.remove(oi);
+                    let si = lines.iter().position(|l| l.starts_with("seed:")).unwrap();
+                    lines.insert(si + 1, l);
+                }
+                s.source = ConfigSource::File;
+                s.raw_text = Some(lines.join("\n") + "\n");
+            }
             13 | 14 | 15 => {
                 // a key-management provider is named while the seed is a plaintext one (and, in
                 // the last case, a provider string no build knows): validation refuses to start
